@@ -10,7 +10,9 @@ from .coordinator import Pool
 
 ASSUME = [
     "NumPy backend only (jax/torch not installed); vmap/linear_transpose/sparse_csr/to_np are a harness shim (stub)",
-    "single caller thread: re-entrancy is LIFO; no line-level pre-emption (cola starts no threads, no property quantifies over schedules)",
+    "re-entrancy is LIFO; caller threads are scheduled at source-line granularity inside cola/ only (C extensions and third-party "
+    "code such as the dispatcher run atomically); C18's threaded histories share operands read-only and instantiate every class "
+    "single-threaded first",
     "alloc_fail covers NumPy data allocations only (PyDataMem handler), not Python objects or LAPACK workspaces; "
     "interpreter crashes on NumPy's own NULL-allocation paths are counted as env_crash and not judged",
     "bitwise reproducibility of identical computations with single-threaded OpenBLAS (established by the determinism self-test)",
@@ -33,10 +35,17 @@ def phase_paths(run, pool):
     programs), all invariants on, and the result of every call compared across ALL these histories."""
     t = time.time()
     progs = (P.path_programs_c17() + P.large_programs_c17() + P.matrix_programs_c17() + P.key_programs_c17()
-             + P.steps_programs_c17() + P.interaction_programs_c17(run.tier) + P.abort_programs_c17()
+             + P.steps_programs_c17(run.tier) + P.interaction_programs_c17(run.tier) + P.abort_programs_c17()
              + (P.huge_programs_c17() if run.tier == "thorough" else []))
     n0 = run.evals
     table, conflicts = {}, []
+    nobs = 0
+    for i, p in enumerate(progs):  # continuous observer of the process-wide generator after every source line (small programs only)
+        c = p["program"]["config"]
+        if not (c.get("large") or c.get("steps") or p["name"].startswith(("huge/", "nested"))) and (
+                run.tier != "quick" or c.get("matrix") or (i + run.seed) % 4 == 0):
+            c["line_observer"] = True
+            nobs += 1
 
     def on(job, res):
         run.absorb(job, res)
@@ -68,11 +77,13 @@ def phase_paths(run, pool):
                                             "operator_kinds": len(P.path_kinds()), "exhaustive": True,
                                             "routine_x_kind_matrix_programs": len(P.matrix_programs_c17()),
                                             "key_interaction_programs": len(P.key_programs_c17()),
-                                            "product_count_programs": len(P.steps_programs_c17()),
+                                            "product_count_programs": len(P.steps_programs_c17(run.tier)),
                                             "large_draw_programs": len(P.large_programs_c17()),
                                             "abort_then_reuse_programs": len(P.abort_programs_c17()),
                                             "operand_interaction_programs": len(P.interaction_programs_c17(run.tier)),
                                             "calls_compared_across_histories": len(table),
+                                            "programs_under_continuous_rng_observer": nobs,
+                                            "source_line_events_observed": int(run.stats.get("observer_line_events", 0)),
                                             "cross_history_conflicts": len(conflicts),
                                             "wall_s": round(time.time() - t, 1)}
 
@@ -103,6 +114,37 @@ def phase_threads(run, pool):
     run.phase_info["caller_threads"] = {
         "histories": run.evals - n0, "line_sweep_programs": len(sweeps), "routine_pair_programs": len(jobs) - len(sweeps) - nrand,
         "random_histories": nrand, "threaded_executions": int(run.stats.get("thread_runs", 0)),
+        "preemption_points_passed": int(run.stats.get("thread_preemption_points", 0)),
+        "baton_switches": int(run.stats.get("thread_switches", 0)),
+        "distinct_lines_preempted_once_each": int(run.stats.get("thread_distinct_lines_preempted", 0)),
+        "wall_s": round(time.time() - t, 1)}
+
+
+def phase_threads18(run, pool):
+    """C18: caller threads on SHARED operands under the baton scheduler (sim/threads18.py): a continuous observer after every
+    source line of every (operator kind x operation), a single-pre-emption line sweep with a partner operation on the same
+    operands, seeded interleavings of 2-3 caller threads."""
+    from . import threads18 as T18
+    import random as _random
+    t = time.time()
+    n0 = run.evals
+    obs = T18.observer_programs(run.tier)
+    sweeps = T18.line_sweep_programs(run.tier, run.seed)
+    nrand = 200 if run.tier == "quick" else 4000
+    jobs = [{"id": "t18-obs-%d" % i, "kind": "program", "program": p["program"], "name": p["name"], "want_program": True,
+             "deadline": 300, "run_seed": p["name"]} for i, p in enumerate(obs)]
+    jobs += [{"id": "t18-sweep-%d" % i, "kind": "program", "program": p["program"], "name": p["name"], "want_program": True,
+              "deadline": 900, "run_seed": p["name"]} for i, p in enumerate(sweeps)]
+    for i in range(nrand):
+        rs = P.derive_seed(run.seed, "C18-threads", run.tier, i)
+        jobs.append({"id": "t18-%d" % i, "kind": "program", "program": T18.gen(_random.Random(rs), rs, run.tier),
+                     "want_program": True, "deadline": 240, "run_seed": rs})
+    pool.run(jobs, run.absorb)
+    run.phase_info["caller_threads"] = {
+        "histories": run.evals - n0, "continuous_observer_programs": len(obs),
+        "source_line_events_observed": int(run.stats.get("observer_line_events", 0)),
+        "line_sweep_programs": len(sweeps), "random_histories": nrand,
+        "threaded_executions": int(run.stats.get("thread_runs", 0)),
         "preemption_points_passed": int(run.stats.get("thread_preemption_points", 0)),
         "baton_switches": int(run.stats.get("thread_switches", 0)),
         "distinct_lines_preempted_once_each": int(run.stats.get("thread_distinct_lines_preempted", 0)),
@@ -156,6 +198,8 @@ def run_property(prop, tier, seed, workers=None, budget=None):
                 if not run.violations and not run.harness:
                     P18.phase_diff(run, pool, B["diff"])
                 phase_crash(run, pool, P18.crash_programs_c18(seed, tier), B["crash_jobs"][prop])
+                if not run.violations and not run.harness:
+                    phase_threads18(run, pool)
         seen_cls = set()
         for job, res in run.violations[:6]:
             kind, info = finalize_violation(run, pool, job, res, known)
